@@ -387,6 +387,16 @@ class Engine:
             recv.length = recv.length - 1
             ctx.note_mut(recv)
             return recv.get(recv.length)
+        if isinstance(recv, (SList, SListView)) and name == "index" and len(args) == 1:
+            x = unwrap(args[0])
+            j = z3.Int(fresh_name("j"))
+            present = z3.Exists([j], z3.And(j >= 0, j < recv.length, unwrap(recv.get(j)) == x))
+            if not ctx.branch(present):
+                raise RaiseSignal(ValueError, node)
+            idx = ctx.fresh_int("idx")
+            ctx.assume(z3.And(idx >= 0, idx < recv.length, unwrap(recv.get(idx)) == x))
+            ctx.assume(z3.ForAll([j], z3.Implies(z3.And(j >= 0, j < idx), unwrap(recv.get(j)) != x)))   # first occurrence
+            return idx
         if isinstance(recv, SSet):
             if name == "add":
                 t = unwrap(args[0])
